@@ -72,4 +72,24 @@ PROPS = {
                      'Display for HaystackKind agreeing with the name table (core::fmt).'),
         technique='contract-based deductive verification: Verus on extracted real bodies + Kani complete finite-domain harnesses',
     ),
+    'C12': dict(
+        title='Value equality, hashing and ordering are mutually consistent',
+        verus=[],
+        kani=[dict(harness='k_number_laws', klass='complete', schema=['f64', 'f64', 'f64'], family='number-laws', target='Number eq/cmp/partial_cmp'),
+              dict(harness='k_number_eq_hash', klass='complete', schema=['f64', 'f64'], family='number-hash', target='Number eq/hash'),
+              dict(harness='k_number_units_cmp_eq', klass='complete', schema=['u8', 'u8', 'f64', 'f64'], family='number-units', target='Number cmp/eq with units'),
+              dict(harness='k_number_units_partial_total', klass='complete', schema=['u8', 'u8', 'f64', 'f64'], family='number-units', target='Number partial_cmp/cmp with units'),
+              dict(harness='k_coord_laws', klass='complete', schema=['f64'] * 6, family='coord-laws', target='Coord eq/cmp/partial_cmp'),
+              dict(harness='k_coord_eq_hash', klass='complete', schema=['f64'] * 4, family='coord-hash', target='Coord eq/hash')],
+        witness=None,
+        design_ref='DESIGN.md section 4, C12',
+        level_text=('Proof (Kani/CBMC, bit-precise, complete over all non-NaN f64): for the hand-written Eq/Hash/Ord/PartialOrd of Number '
+                    '(unit-less, and with units drawn from {none, m, s}) and Coord: == is an equivalence and a clone equals its original; '
+                    'equal values feed identical byte streams to any Hasher; cmp is antisymmetric, transitive and Equal exactly when == holds; '
+                    'partial_cmp, when it answers, gives cmp\'s answer.'),
+        not_decided=('Ref/Str/Uri/Symbol/XStr (delegate to String), Date/Time/DateTime (chrono), List/Grid (derived / std Vec), '
+                     'the structural lifting through Value and Dict (BTreeMap); rustc derives are assumed lexicographic/structural; '
+                     'units other than the three sampled shapes (Unit::eq/hash compare all fields bitwise).'),
+        technique='contract-based deductive verification: Kani complete symbolic harnesses over all f64 on the real trait impls',
+    ),
 }
